@@ -17,6 +17,7 @@ Direct oracle: an independent RFC 6455 framer/parser below (no model involved).
 import base64, hashlib, json, os, struct
 from .. import common
 
+GEN = ["leaf"]
 PROPS_MOD = "VncModel.Props.C09"
 EXTRA_TARGETS = ["drv_c09"]
 BUF = 2062
@@ -751,10 +752,15 @@ def oracle_lone_control(impl):
 
 
 def oracle_e2e(script, impl, meta):
+    """meta = None (replay): the expectations are taken from the script itself (sub-protocol from the
+    request, events from the plain TCP session)"""
     ops = script.splitlines()
     if len(impl) != len(ops):
         return "e2e: %d observations for %d ops" % (len(impl), len(ops))
     pumps = {0: [], 1: []}
+    if meta is None:
+        meta = {"b64": any(o.startswith("conn 1 ws") and b"Sec-WebSocket-Protocol: base64" in bytes.fromhex(o.split()[3])
+                           for o in ops), "ev": None}
     for op, ob in zip(ops, impl):
         t = op.split()
         if t[0] == "conn":
@@ -768,7 +774,7 @@ def oracle_e2e(script, impl, meta):
     for k in (0, 1):
         if len(pumps[k]) != 2:
             return "e2e: missing pump observations"
-    want_ev = ",".join(meta["ev"]) or "-"
+    want_ev = (",".join(meta["ev"]) or "-") if meta["ev"] is not None else pumps[0][0]["ev"]
     for k, name in ((0, "TCP"), (1, "WebSocket")):
         f = pumps[k][0]
         if f["alive"] != "1" or f["left"] != "0":
@@ -830,11 +836,46 @@ def run(ctx):
 
     if ctx.replay:
         rec = json.load(open(ctx.replay))
-        script = "\n".join(rec.get("script", [])) + "\n"
+        lines = rec.get("script", [])
+        script = "\n".join(lines) + "\n"
+        if any(l.startswith("conn ") for l in lines):          # end-to-end script: harness + oracle only
+            rc, impl, err = ctx.run_lines(h, script, timeout=900)
+            if rc != 0:
+                fails.append({"kind": "crash", "what": "ws.e2e replay: harness exit %d" % rc, "script": lines, "detail": err})
+            else:
+                two = any(l.startswith("conn 0 tcp") for l in lines)
+                o = oracle_e2e(script, impl, None) if two else oracle_lone_control(impl)
+                if o:
+                    fails.append({"kind": "oracle", "what": "C09 end-to-end oracle (replay)", "detail": o,
+                                  "script": lines, "impl": [x[:400] for x in impl],
+                                  "finding": None if two else LONE_CONTROL})
+            return {"evaluations": 1, "failures": fails, "samples": [{"script": [l[:200] for l in lines[:10]]}]}
         impl, model, f = common.compare_streams(ctx, script, h, d, "ws.replay")
         if f:
             fails.append(f)
-        return {"evaluations": 1, "failures": fails, "samples": [{"script": rec.get("script", [])[:10], "impl": impl[:10]}]}
+        # re-run the direct oracles on what the script contains
+        cur = {}
+        for op, ob in zip(lines, impl):
+            t = op.split()
+            if t[0] == "new":
+                cur = {"wire": b"", "sched": [], "lens": [], "kind": rec.get("case_kind", "replay")}
+            elif t[0] == "frames":
+                cur["wire"] = cur.get("wire", b"") + (bytes.fromhex(t[1]) if t[1] != "-" else b"")
+            elif t[0] == "sched":
+                cur["sched"] = cur.get("sched", []) + t[1:]
+            elif t[0] == "drain":
+                cur["lens"] = t[2:]
+                cur.setdefault("kind", "replay"); cur.setdefault("wire", b""); cur.setdefault("sched", [])
+                o = oracle_case(cur, ob)
+                if o:
+                    fails.append({"kind": "oracle", "what": "C09 decoder oracle (replay)", "detail": o[0],
+                                  "script": lines, "impl": [ob[:3000]], "finding": o[1]})
+            elif t[0] in ("enc", "b64e", "sha1", "wx", "hs"):
+                o = oracle_func(op, ob)
+                if o:
+                    fails.append({"kind": "oracle", "what": "C09 %s oracle (replay)" % t[0], "detail": o,
+                                  "script": [op[:4000]], "impl": [ob[:4000]]})
+        return {"evaluations": 1, "failures": fails, "samples": [{"script": [l[:200] for l in lines[:10]], "impl": [x[:200] for x in impl[:10]]}]}
 
     # ---- decoder cases: corpus first, then exhaustive header splits, then random
     cases = load_corpus()
@@ -871,7 +912,7 @@ def run(ctx):
             dist["kinds"][k] = dist["kinds"].get(k, 0) + 1
             if o:
                 what, tag = o
-                fails.append({"kind": "oracle", "what": "C09 decoder oracle (%s)" % k, "detail": what,
+                fails.append({"kind": "oracle", "what": "C09 decoder oracle (%s)" % k, "detail": what, "case_kind": k,
                               "script": c["script"], "impl": [x[:3000] for x in obs], "finding": tag})
             elif mobs is not None and obs != mobs:
                 di = common.first_diff(obs, mobs)
@@ -948,7 +989,7 @@ def run(ctx):
         o = oracle_e2e(script, impl, meta)
         if o:
             fails.append({"kind": "oracle", "what": "C09 end-to-end oracle", "detail": o,
-                          "script": [l[:400] for l in script.splitlines()][:80], "impl": [x[:400] for x in impl],
+                          "script": script.splitlines(), "impl": [x[:400] for x in impl],
                           "finding": "ws-header-split" if (meta["nseg"] > 1 or meta["rs"]) else None})
         key = "%s/%s" % ("base64" if meta["b64"] else "binary", "rs" if meta["rs"] else "nors")
         dist["e2e"][key] = dist["e2e"].get(key, 0) + 1
@@ -972,11 +1013,14 @@ def run(ctx):
         "rule": "decoder case = (wire bytes, read schedule, caller lengths) with >= 2 decode calls; function op = distinct input; e2e = distinct RFB script x framing x segmentation",
         "samples": samples, "distribution": dist, "failures": fails[:16],
         "exhaustive": True,
-        "partial": ["base64 (text-frame) transparency is proved relative to the assumed law of base64.c (decode . encode = id, chunk additivity), which is compared with the C routines, not proved",
-                    "wss (TLS) transport not modelled", "timing (a lone control frame followed by silence lets rfbReadExact time out) is outside the decoder model"],
+        "partial": ["stream-level strictness (valid prefix, then the offending frame yields the error) is proved per call (strict_* theorems, every state / every oracle), not as one run theorem",
+                    "handshake: response construction is proved, the byte-wise request scanner is tied by the differential run only",
+                    "wss (TLS) transport not modelled",
+                    "timing is outside the decoder model: a lone control/empty frame followed by silence lets rfbReadExact time out (finding ws-lone-control-frame-timeout, probed end to end)"],
         "assumptions": ["read callback returns a non-empty prefix of the pending bytes, EAGAIN, 0 or a hard error",
                         "the caller passes len > 0 and a buffer of at least len bytes",
-                        "fixes/C09-ws-header-split.diff is applied (the model follows the fixed decoder)"],
+                        "fixes/C09-ws-header-split.diff is applied (the model follows the fixed decoder)",
+                        "valid client frames: control frames <= 125 bytes (RFC 6455 5.5), text frames carry the base64 encoding of their data"],
         "trusted_extra": ["independent RFC 6455 framer/parser + Python base64/hashlib as direct oracle"],
     }
 
@@ -984,6 +1028,6 @@ def run(ctx):
 META = {
     "technique": "Lean 4 theorems about an executable model of the hybi decoder as a state machine over an arbitrary read oracle (schedule independence by an inductive invariant), codec round trips, encoder validity; exact correspondence run of the model against the real decoder through its read callback, end-to-end differential run TCP vs WebSocket",
     "level_text": "Proof: see lean/VncModel/Props/C09.lean. Tie: T0 constants + exact differential run (every decode call: result, read requests, full decoder state) + independent RFC 6455 oracle + end-to-end run.",
-    "level_note": "Trusted: Lean kernel, harness/driver/generators (testing, distribution in evidence). base64 law assumed for text frames. TLS not modelled.",
+    "level_note": "Trusted: Lean kernel, harness/driver/generators (testing, distribution in evidence). The base64 round-trip law is proved for the model of base64.c, which is compared with the C routines. TLS not modelled.",
     "design_ref": "DESIGN.md section 7, C09; section 11 item b",
 }
